@@ -613,6 +613,22 @@ func runAdmission(t TB, p *Program) *concResult {
 	}
 	res.blockedAtClose = true
 	res.labels["admission-bound-checked"]++
+	// one merger cycle: top is emptied and the blocked writers are woken; again
+	// at most MaxPreMergerBatches of them may get in, the rest must re-check
+	// and keep waiting
+	if want > max {
+		e.MergerStep("")
+		time.Sleep(3 * time.Millisecond)
+		r := int(atomic.LoadInt32(&returned))
+		if r > 2*max {
+			e.Failf("after one merger cycle %d batches have been accepted in total although only %d + %d may be (MaxPreMergerBatches=%d, merger parked again)", r, max, max, max)
+		}
+		st := e.stats()
+		if !batchesHaveChildren(batches) && int(st.CurDirtyTopSegments) > max {
+			e.Failf("after one merger cycle CurDirtyTopSegments=%d exceeds MaxPreMergerBatches=%d", st.CurDirtyTopSegments, max)
+		}
+		res.labels["admission-bound-rechecked-after-wakeup"]++
+	}
 	// release: everybody returns
 	e.FreeRun()
 	done := make(chan struct{})
